@@ -735,7 +735,11 @@ func (fv *FV) havocLocation(e, pre *Env, cl *Clause, bind map[types.Object]Value
 		case "object":
 			fv.havocObject(e, l.ref, l.typ)
 		case "cell":
-			fv.havocCell(e, l.comp, l.typ, l.ref)
+			if l.sort != "" {
+				fv.storeComp(e, l.comp, l.sort, fv.s.freshConst("hv", l.sort), l.ref)
+			} else {
+				fv.havocCell(e, l.comp, l.typ, l.ref)
+			}
 		case "elems":
 			fv.havocSliceElems(e, l.slice, l.typ)
 		case "map":
@@ -747,6 +751,7 @@ func (fv *FV) havocLocation(e, pre *Env, cl *Clause, bind map[types.Object]Value
 }
 
 type modLoc struct {
+	sort  string
 	kind  string
 	ref   Term
 	typ   types.Type
@@ -765,6 +770,13 @@ func (fv *FV) modLocations(pre *Env, cl *Clause, bind map[types.Object]Value) []
 	x := ast.Unparen(cl.Expr)
 	t := cl.Info.Types[x].Type
 	if t == nil {
+		return []modLoc{{kind: "all"}}
+	}
+	if fv.isGhostMapExpr(x) {
+		lv := fv.lvalue(pre, x)
+		if lv.kind == lvCell && len(lv.idx) == 1 {
+			return []modLoc{{kind: "cell", comp: lv.comp, ref: lv.idx[0], typ: lv.typ, sort: lv.sort}}
+		}
 		return []modLoc{{kind: "all"}}
 	}
 	// pointer to object / object value
@@ -1036,6 +1048,18 @@ func (fv *FV) ghostBuiltin(e *Env, x *ast.CallExpr, fn *types.Func) Value {
 	case "gh_max":
 		a, b := fv.expr(e, x.Args[0]).T, fv.expr(e, x.Args[1]).T
 		return Value{K: kScalar, T: ite(ge(a, b), a, b)}
+	case "gh_upd":
+		m := fv.expr(e, x.Args[0])
+		k := fv.expr(e, x.Args[1])
+		v := fv.expr(e, x.Args[2])
+		return Value{K: kScalar, T: store(m.T, k.T, v.T), Type: rt}
+	case "gh_mapEq":
+		a, b := fv.expr(e, x.Args[0]), fv.expr(e, x.Args[1])
+		if a.T.Sort != b.T.Sort {
+			fv.specErr("mapEq on different sorts")
+			break
+		}
+		return Value{K: kScalar, T: eq(a.T, b.T)}
 	case "gh_wrote":
 		return Value{K: kScalar, T: fv.loadComp(e, "ghost$writes", sInt, tNull)}
 	}
